@@ -365,7 +365,6 @@ func checkC19(p *Program, r *Report) {
 	}
 }
 
-
 // checkCalendarRoles (R19.3): day, month and year are not interchanged where the calendar helpers are called.
 // The month-length function fixes the roles of its own parameters (the one that indexes the table is the month,
 // the one handed to the leap predicate is the year); the roles of other helpers' parameters follow from how they
@@ -635,7 +634,6 @@ func checkCalendarRoles(p *Program, r *Report, dim, leap *ssa.Function) {
 	}
 	r.Floor("R19.3", "calendar arguments with a role", n, 2)
 }
-
 
 // fieldOf: v is (a conversion of) a read of field k of a struct of type T — a Field of a struct value, or a load
 // through a FieldAddr.
